@@ -88,6 +88,12 @@ def probe_pool(ctx, sub):
         if os.path.exists(side):
             m.update(json.load(open(side)))
         out.append({"path": dst, "origin": "probe", "ink": ink, "seed": None, "meta": m, "probe": True})
+    # compiled documents kept as they were when they were found (the compiler may have changed since)
+    for js in sorted(glob.glob(os.path.join(common.ROOT, "corpus", sub, "*.json"))):
+        if js.endswith(".meta.json"):
+            continue
+        m = story_meta_from_json(js)
+        out.append({"path": js, "origin": "probe", "ink": None, "seed": None, "meta": m, "probe": True})
     return out
 
 
